@@ -3,7 +3,7 @@
 From V Require Import model.Base model.RingQueue proofs.RingQueueProofs.
 From V Require Import model.Obs model.Vec proofs.VecProofs.
 From V Require Import model.SlotMap proofs.SlotMapProofs.
-From V Require Import model.Str proofs.StrProofs proofs.StrRefine model.FlatMap proofs.FlatMapProofs.
+From V Require Import model.Str proofs.StrProofs proofs.StrRefine model.FlatMap proofs.FlatMapProofs proofs.FlatMapRefine.
 From Coq Require Import Permutation.
 
 (* queue.rs: for every capacity (0 included) and every operation sequence the ring buffer
@@ -266,4 +266,54 @@ Print Assumptions c16_str_regression_nul.
 
 (* ------------------------------------------------------------------------------------------
    flatmap.rs (MetaFlatMap over the slot map). *)
-(*FLAT-SECTION*)
+
+(* For every capacity (0 included) and every operation sequence over insert / get / get_ref /
+   remove / contains / list_keys / len / container drop, the flat map (linear search by id over
+   the slot map of entries) returns exactly what the association-list reference (finite map id ->
+   value with a capacity guard) returns: a duplicate id fails with KeyAlreadyExists (checked
+   first), insert into a full map with IsFull; list_keys and drop logs agree as multisets (the
+   reference does not fix their order).  fop_ok: values below 2^32, because the model codes an
+   entry (id, value) as the single number id * 2^32 + value. *)
+Theorem c16_flatmap_refines_map : forall (c : N) (ops : list fop), Forall fop_ok ops ->
+  Forall2 fobs_rel (fm_run (sm_new c) ops) (fmap_run (fmap_new c) ops).
+Proof. exact fm_refines_map. Qed.
+Check c16_flatmap_refines_map : forall (c : N) (ops : list fop), Forall fop_ok ops ->
+  Forall2 fobs_rel (fm_run (sm_new c) ops) (fmap_run (fmap_new c) ops).
+Print Assumptions c16_flatmap_refines_map.
+Example c16_flatmap_refines_map_nonvacuous : Forall fop_ok [FInsert 3 8; FInsert 3 9; FRemove 3; FKeys; FDrop].
+Proof. repeat constructor. Qed.
+Print Assumptions c16_flatmap_refines_map_nonvacuous.
+
+(* the reference's insert: present id -> KeyAlreadyExists, nothing changes; absent id and full ->
+   IsFull, nothing changes; otherwise stored and found again *)
+Theorem c16_flatmap_insert_cases : forall f id v,
+  let '(f', ob, _) := fmap_step f (FInsert id v) in
+  (alookup (fkv f) id <> None -> ob = OErr EKeyExists /\ f' = f) /\
+  (alookup (fkv f) id = None -> ~ (lenN (fkv f) < fcap f)%N -> ob = OErr EIsFull /\ f' = f) /\
+  (alookup (fkv f) id = None -> (lenN (fkv f) < fcap f)%N -> ob = OUnit /\ alookup (fkv f') id = Some v).
+Proof. exact fmap_insert_cases. Qed.
+Print Assumptions c16_flatmap_insert_cases.
+
+(* KeyAlreadyExists and IsFull leave the whole concrete record unchanged (every state, every
+   operation), and likewise the reference *)
+Theorem c16_flatmap_error_unchanged : forall m o m' e d, fm_step m o = (m', OErr e, d) -> m' = m.
+Proof. exact fm_error_unchanged. Qed.
+Print Assumptions c16_flatmap_error_unchanged.
+Example c16_flatmap_error_unchanged_nonvacuous :
+  exists m d, fm_step m (FInsert 3 9) = (m, OErr EKeyExists, d).
+Proof. exists (fst (fst (fm_step (sm_new 2) (FInsert 3 8)))). eexists. vm_compute. reflexivity. Qed.
+Print Assumptions c16_flatmap_error_unchanged_nonvacuous.
+Theorem c16_flatmap_reference_error_unchanged : forall s o s' e d, fmap_step s o = (s', OErr e, d) -> s' = s.
+Proof. exact fmap_error_unchanged. Qed.
+Print Assumptions c16_flatmap_reference_error_unchanged.
+Example c16_flatmap_reference_error_unchanged_nonvacuous :
+  fmap_step (fmap_new 0) (FInsert 3 9) = (fmap_new 0, OErr EIsFull, [(KTAG + 3)%N; 9%N]).
+Proof. reflexivity. Qed.
+Print Assumptions c16_flatmap_reference_error_unchanged_nonvacuous.
+
+(* regression history: FlatMap::new(0).insert used to panic (fixed in /repo by 6ffc44e) *)
+Theorem c16_flatmap_regression_cap0 :
+  map fst (fm_run (sm_new 0) [FInsert 0 1; FGet 0; FRemove 0]) = [OErr EIsFull; OO None; OO None].
+Proof. exact fm_regression_cap0. Qed.
+Print Assumptions c16_flatmap_regression_cap0.
+
